@@ -169,9 +169,11 @@ def compare_case(case, mvals, rres, judge_kinds=None, judge_obj=True):
         return [{"what": "the specification is rejected by the model (constraint that cannot be placed) "
                          "but rockit transcribed it without raising"}]
     if "error" in rres and ("You passed a constant" in rres["error"] or "never statisfied" in rres["error"]
-                            or "Constraint must contain decision variables" in rres["error"]):
-        # a generated relation folded to a constant inside CasADi: the model has no symbolic
-        # simplifier, the case is skipped (counted, never an alarm)
+                            or "Constraint must contain decision variables" in rres["error"]
+                            or "MX symbol 'offset'" in rres["error"]):
+        # a generated relation folded to a constant / parameter-only / offset-only expression inside
+        # CasADi (rockit then rejects it loudly): the model has no symbolic simplifier, the case is
+        # skipped (counted, never an alarm)
         return []
     if "error" in rres:
         return [{"what": "rockit raised on a case the model transcribes", "error": rres["error"],
